@@ -909,11 +909,18 @@ func probeWeightDefects(t *testing.T, announce bool) {
 	}
 }
 
+// announce: Known lines and pinned failures are printed once (shard 0), never in replay mode;
+// the exclusion switches are set in every process.
+func announce() bool {
+	shard, _ := stat.Shard()
+	return shard == 0 && stat.ReplayPath() == ""
+}
+
 func TestC13(t *testing.T) {
 	defer st.Emit()
 	// in replay mode the probes only set the exclusion switches (so that a stored case is
-	// executed exactly as it was when it failed) and announce nothing
-	probeWeightDefects(t, stat.ReplayPath() == "")
+	// executed exactly as it was when it failed)
+	probeWeightDefects(t, announce())
 	stat.Check(t, st, "machine", stat.N(4000, 20000), drawMachine, runMachine)
 	stat.Check(t, st, "weightlist", stat.N(4000, 20000), drawWeightList, runWeightList)
 }
@@ -1366,7 +1373,7 @@ func TestC13Race(t *testing.T) {
 	// the weight probes decide the exclusions of the concurrent generator as well; their
 	// Known lines are emitted by unit 1 only
 	quietProbeWeightDefects()
-	probeRandomRace(t, stat.ReplayPath() == "")
+	probeRandomRace(t, announce())
 	stat.Check(t, st, "concurrent", stat.N(400, 1500), drawConcurrent, runConcurrent)
 }
 
